@@ -41,6 +41,10 @@ import json,sys,os,glob,re
 work,out,pid=sys.argv[1:4]
 res={"evaluations":0,"samples":[],"violations":[],"inconclusive":[],"counters":{},"maxima":{},"sets":{}}
 def cnt(k,n=1): res["counters"][k]=res["counters"].get(k,0)+n
+# an incomplete slice is inconclusive for that slice only: recorded in the evidence (set
+# "sanitizer_slices_incomplete" and counter), it does not change the verdict of the native run
+def note(s):
+    res["sets"].setdefault("sanitizer_slices_incomplete",[]).append(s); cnt("sanitizer_slices_incomplete")
 def fold(tool, nshards):
     started=0
     for sh in range(1,nshards+1):
@@ -64,11 +68,11 @@ def fold(tool, nshards):
                 res["violations"].append({"signature":"%s:%s"%(tool, (frame.group(1) if frame else ub.group(1))[:80]),
                     "detail":"%s reported: %s ... %s"%(tool, ub.group(1), err[-600:]), "replay":{"property":pid,"tool":tool,"shard":sh}})
             else:
-                res["inconclusive"].append("%s shard %d did not complete (rc %d): %s"%(tool,sh,rc,(err.strip().splitlines() or ["?"])[-1][:200]))
+                note("%s shard %d did not complete (rc %d): %s"%(tool,sh,rc,(err.strip().splitlines() or ["?"])[-1][:200]))
     if started==0:
-        res["inconclusive"].append("%s slice could not start"%tool)
+        note("%s slice could not start"%tool)
 fold("miri",6); fold("asan",8)
 json.dump(res,open(out,"w"))
-print("sanitizer slices:", {k:v for k,v in res["counters"].items()}, "violations:", len(res["violations"]), "inconclusive:", len(res["inconclusive"]))
+print("sanitizer slices:", {k:v for k,v in res["counters"].items()}, "violations:", len(res["violations"]), "incomplete slices:", res["counters"].get("sanitizer_slices_incomplete",0))
 PY
 rm -rf "$work"
